@@ -11,6 +11,18 @@ namespace etl {
 /// \brief Obtain the address represented by p without forming a reference to
 /// the object pointed to by p.
 ///
+/// \details Raw pointer overload: If T is a function type, the program is
+/// ill-formed. Otherwise, returns p unmodified.
+template <typename T>
+    requires(not is_function_v<T>)
+constexpr auto to_address(T* ptr) noexcept -> T*
+{
+    return ptr;
+}
+
+/// \brief Obtain the address represented by p without forming a reference to
+/// the object pointed to by p.
+///
 /// \details Fancy pointer overload: If the expression
 /// pointer_traits<Ptr>::to_address(p) is well-formed, returns the result of
 /// that expression. Otherwise, returns to_address(p.operator->()).
@@ -22,18 +34,6 @@ constexpr auto to_address(Ptr const& ptr) noexcept
     } else {
         return to_address(ptr.operator->());
     }
-}
-
-/// \brief Obtain the address represented by p without forming a reference to
-/// the object pointed to by p.
-///
-/// \details Raw pointer overload: If T is a function type, the program is
-/// ill-formed. Otherwise, returns p unmodified.
-template <typename T>
-    requires(not is_function_v<T>)
-constexpr auto to_address(T* ptr) noexcept -> T*
-{
-    return ptr;
 }
 
 } // namespace etl
